@@ -549,8 +549,15 @@ func caseC17Settings(t TB, prog *Program) {
 				nc := e.cfg
 				before := treeHash(e.root)
 				want := sod.ErrExtensionMismatch
-				if op.Ref%2 == 0 {
+				if op.Ref%3 == 0 {
 					nc.Ext = e.cfg.Ext + "x"
+				} else if op.Ref%3 == 1 {
+					// extensions are file-name suffixes: they differ when their case differs
+					nc.Ext = strings.ToUpper(e.cfg.Ext)
+					if nc.Ext == e.cfg.Ext {
+						nc.Ext = strings.ToLower(e.cfg.Ext)
+					}
+					e.flag("incompatible-extension-differs-in-case-only")
 				} else {
 					want = sod.ErrFieldDescModif
 					nc.Cons = map[string]Cons{}
